@@ -101,6 +101,11 @@ func concOps() []cop {
 		{"clunk", memfs.ClassNone, "Close", '*', '*', false, func(p *rawpeer.Peer, tag uint16, fid, aux uint64, ch string) {
 			p.Send(wire.Tclunk, tag, fid)
 		}},
+		// a walk onto an occupied fid number: the File of the replaced binding is
+		// closed on the request's behalf (it parks in that Close)
+		{"walk-replace", memfs.ClassNone, "Close", '*', 'u', false, func(p *rawpeer.Peer, tag uint16, fid, aux uint64, ch string) {
+			p.Send(wire.Twalk, tag, u(0), fid, []string{"f"})
+		}},
 	}
 }
 
